@@ -105,6 +105,19 @@ CHECKS = {
              "of all histories of <=4 (quick) / <=5 (thorough) set/add/remove/clear steps; every normal-form cardinality "
              "with bounds <=3 is saved and reloaded in XML, JSON, YAML through string, file and odml.save/load.",
         design="DESIGN.md C09"),
+    "C10": dict(
+        engine="input",
+        category="model_checking",
+        technique="bounded-exhaustive enumeration of documents and document lists x RDF serialisations x sub-classing modes x entry "
+                  "points against a reference graph shape (rdflib triple API only) and a snapshot projection of the import",
+        text="Value lists of length <=2 over the atoms of every dtype (incl. n-tuples, 10**20, 1/3, quotes/newlines/non-ASCII) plus "
+             "lists of 10 and 12 values, every RDF-carried attribute x every text atom (uncertainty incl. 0), all forests with <=3/4 "
+             "Sections, lists of 1-3 documents with default-mapped, unmapped and custom-mapped Section types; x {xml, nt, json-ld, "
+             "turtle, n3} x sub-classing on/off/custom x {get_rdf_str/from_string, write_file/from_file, odml.save/ODMLReader}: the "
+             "writer's graph and the re-parsed text satisfy the shape (one Hub, nodes named by id, one rdf:type, exactly the set "
+             "attributes with typed values, child edges, one rdf:Seq with members 1..n in order); the import returns the same "
+             "documents modulo sibling order; exporting changes nothing.",
+        design="DESIGN.md C10"),
     "C11": dict(
         engine="history",
         category="model_checking",
